@@ -28,7 +28,8 @@ def _bools(txt):
 def convert(beh):
     st0 = beh[0][1]
     T, S, D, C = _nums(st0["cfgT"]), _nums(st0["cfgS"]), _nums(st0["cfgD"]), _bools(st0["cfgC"])
-    jobs = [{"T": T[i], "S": S[i], "D": D[i], "C": C[i]} for i in range(len(T))]
+    SD = _nums(st0["cfgSD"])
+    jobs = [{"T": T[i], "S": S[i], "D": D[i], "C": C[i], "SD": SD[i]} for i in range(len(T))]
     sched = [n for n in (_actor_name(s[1]["actor"]) for s in beh[1:]) if n]
     hist = re.findall(r'<<"(\w+)", (-?\d+), (\d+)>>', beh[-1][1]["hist"])
     exp = [[a, int(b), int(c)] for a, b, c in hist]
@@ -41,7 +42,7 @@ def project(trace):
     out = []
     for e in trace:
         ev = e["ev"]
-        if ev in ("SubmitCall", "SubmitRet", "InvokeEnd", "End"):
+        if ev in ("SubmitCall", "SubmitRet", "InvokeEnd", "End", "FutureCreated"):
             out.append([ev, e["f"], e["t"]])
         elif ev == "CancelArrived" and e["s"] == "outer" and e["r"] == "timeout":
             out.append([ev, e["f"], e["t"]])
@@ -56,7 +57,8 @@ def gen_jobs(rng, n):
         jobs.append({"T": rng.choice([300, 1000, 1000, 2000, 3000]), "S": rng.choice([0, 0, 500, 1500, 2990]),
                      "D": rng.choice([0, 400, 1000, 1000, 2500, 2999, 3001]), "C": rng.random() < 0.5,
                      "percall": rng.random() < 0.7, "exc": rng.random() < 0.2,
-                     "ucancel": rng.choice([None, None, None, 700, 1000, 2000])})
+                     "ucancel": rng.choice([None, None, None, 700, 1000, 2000]),
+                     "SD": rng.choice([0, 0, 0, 1, 200, 700])})
     return jobs
 
 
@@ -65,8 +67,12 @@ def run(ck):
     rng = random.Random(ck.seed)
     # 1. the modelled design satisfies the contract on every interleaving (exhaustive, small constants)
     ck.mc("Timeout", "Timeout.mc.cfg" if quick else "Timeout.mc3.cfg", timeout=3000)
+    ck.mc("Timeout", "Timeout.mc4.cfg", timeout=3000)     # submissions one tick around another one's deadline
     # 2. spec -> code: TLC behaviours replayed in the real TimeoutExecutor
     behs = tlc.simulate_behaviours("Timeout", "Timeout.sim.cfg", 60 if quick else 600, 90, ck.seed + 1, timeout=900)
+    ck.replay_behaviours(behs, convert, project, TRACE)
+    # ... including delegates whose own submit() takes time (the deadline counts from the creation of the future)
+    behs = tlc.simulate_behaviours("Timeout", "Timeout.sim2.cfg", 40 if quick else 400, 90, ck.seed + 2, timeout=900)
     ck.replay_behaviours(behs, convert, project, TRACE)
     # 3. code -> spec: many real executions (all three flavours, both granularities), judged by TLC
     tasks = []
@@ -94,6 +100,15 @@ def run(ck):
                               prefix=[["sub3", 10000]])
     swept += _core.phase_tasks("timeout", pp, [("sub2", "sub3"), ("TimeoutExecutor-t", "sub3")],
                                range(1, 40, 5 if quick else 1), range(1, 30, 6 if quick else 1))
+    # a submission lands while the timeout thread - woken by another future's completion - is between computing the
+    # earliest deadline of the futures it knows and going back to sleep; a later-deadline future keeps it asleep
+    pq = {"flavour": "manual", "jobs": [{"T": 1000, "S": 0, "D": 300, "C": True}, {"T": 2000, "S": 0, "D": 0, "C": True},
+                                        {"T": 1000, "S": 300, "D": 0, "C": True}], "horizon": 4000}
+    swept += _core.phase_tasks("timeout", pq, [("TimeoutExecutor-t", "sub3")], range(1, 90), [10000],
+                               prefix=[["sub1", 10000], ["sub2", 10000], ["env1", 10000]])
+    if not quick:
+        swept += _core.phase_tasks("timeout", pq, [("TimeoutExecutor-t", "sub3")], range(1, 90), range(1, 40, 3),
+                                   prefix=[["sub1", 10000], ["sub2", 10000], ["env1", 10000]])
     ck.run_and_validate(swept, TRACE, nontrivial=lambda t, r: True)
     ck.assumptions += [
         "virtual time: timers fire one tick late, time advances only when no thread can run",
